@@ -9,5 +9,15 @@ func init() {
 		gfSpec{Pkg: "./pkg/crypto/keys", Recv: "PublicKey", Func: "IsInfinity", Lean: "publicKeyIsInfinity"},
 		gfSpec{Pkg: "./pkg/crypto/keys", Func: "validateNEP2Format", Lean: "validateNEP2Format"},
 		gfSpec{Pkg: "./pkg/vm/stackitem", Func: "CheckIntegerSize", Lean: "stackitemCheckIntegerSize"},
+		gfSpec{Pkg: "./pkg/smartcontract/scparser", Func: "getNumOfThingsFromInstr", Lean: "getNumOfThingsFromInstr"},
+		gfSpec{Pkg: "./pkg/smartcontract/scparser", Func: "GetBigIntFromInstr", Lean: "getBigIntFromInstr"},
+		gfSpec{Pkg: "./pkg/vm/emit", Func: "smallInt", Lean: "emitSmallInt"},
+		gfSpec{Pkg: "./pkg/vm/emit", Func: "Bytes", Lean: "emitBytes"},
+		gfSpec{Pkg: "./pkg/crypto/keys", Recv: "PublicKey", Func: "DecodeBinary", Lean: "publicKeyDecodeBinary"},
+		gfSpec{Pkg: "./pkg/crypto/keys", Recv: "PublicKey", Func: "DecodeBytes", Lean: "publicKeyDecodeBytes"},
+		gfSpec{Pkg: "./pkg/crypto/keys", Func: "NewPublicKeyFromBytes", Lean: "newPublicKeyFromBytes"},
+		gfSpec{Pkg: "./pkg/crypto/keys", Func: "NewPrivateKeyFromBytes", Lean: "newPrivateKeyFromBytes"},
+		gfSpec{Pkg: "./pkg/encoding/fixedn", Func: "FromString", Lean: "fixednFromString"},
+		gfSpec{Pkg: "./pkg/util", Func: "Uint160DecodeBytesBE", Lean: "uint160DecodeBytesBE"},
 	)
 }
